@@ -259,6 +259,108 @@ extern "C" void harness_c42_containers()
     mapbasicbasic_free(mp);
     VERIF_END();
 }
+// sets through the C API
+static RCP<const Set> c_set(CB &o, const std::string &tag, bool enumerate = false)
+{
+    CWRAPPER_OUTPUT_TYPE rc = SYMENGINE_NO_EXCEPTION;
+    RCP<const Set> cpp;
+    switch (verif_choice((tag + "_k").c_str(), 8)) {
+        case 0: {
+            long a = slot(tag + "_a", -1, 1, enumerate), b = slot(tag + "_b", -1, 1, enumerate);
+            int lo = (int)verif_choice((tag + "_lo").c_str(), 2), ro = (int)verif_choice((tag + "_ro").c_str(), 2);
+            CB ca, cb;
+            integer_set_si(ca.b, a);
+            integer_set_si(cb.b, b);
+            CCALL(rc = basic_set_interval(o.b, ca.b, cb.b, lo, ro));
+            bool threw = false;
+            try {
+                cpp = interval(integer(a), integer(b), lo, ro);
+            } catch (SymEngineException &) {
+                threw = true;
+            }
+            verif_assert((rc != SYMENGINE_NO_EXCEPTION) == threw, "basic_set_interval reports an error code exactly when interval() throws");
+            if (threw)
+                return RCP<const Set>();
+            break;
+        }
+        case 1: {
+            CSetBasic *c = setbasic_new();
+            CB e1, e2;
+            long a = slot(tag + "_e", -1, 1, enumerate);
+            integer_set_si(e1.b, a);
+            symbol_set(e2.b, "t");
+            setbasic_insert(c, e1.b);
+            bool withSym = enumerate && verif_choice((tag + "_sym").c_str(), 2); // (a symbol as element only next to concrete numbers)
+            if (withSym)
+                setbasic_insert(c, e2.b);
+            CCALL(rc = basic_set_finiteset(o.b, c));
+            setbasic_free(c);
+            cpp = withSym ? finiteset({integer(a), symbol("t")}) : finiteset({integer(a)});
+            break;
+        }
+        case 2: CCALL(basic_set_emptyset(o.b)); cpp = emptyset(); break;
+        case 3: CCALL(basic_set_universalset(o.b)); cpp = universalset(); break;
+        case 4: CCALL(basic_set_reals(o.b)); cpp = reals(); break;
+        case 5: CCALL(basic_set_rationals(o.b)); cpp = rationals(); break;
+        case 6: CCALL(basic_set_integers(o.b)); cpp = integers(); break;
+        default: CCALL(basic_set_complexes(o.b)); cpp = complexes(); break;
+    }
+    verif_assert(rc == SYMENGINE_NO_EXCEPTION, "C set constructor succeeds");
+    verif_assert(eq(*o.rcp(), *cpp), "C set constructor builds the same set as the C++ constructor");
+    return cpp;
+}
+extern "C" void harness_c42_sets()
+{
+    CB a, b, r, pt;
+    RCP<const Set> sa = c_set(a, "a");
+    if (sa.is_null()) {
+        VERIF_END();
+        return;
+    }
+    long pv = verif_i64("p", -2, 2);
+    integer_set_si(pt.b, pv);
+    RCP<const Basic> p = integer(pv);
+    CWRAPPER_OUTPUT_TYPE rc = SYMENGINE_NO_EXCEPTION;
+    unsigned op = (unsigned)verif_choice("op", 9);
+    if (op < 4) {
+        RCP<const Set> sb = c_set(b, "b", true); // second operand: one path per value
+        if (sb.is_null()) {
+            VERIF_END();
+            return;
+        }
+        switch (op) {
+            case 0: CCALL(rc = basic_set_union(r.b, a.b, b.b)); agree(rc, r, [&]() -> RCP<const Basic> { return sa->set_union(sb); }, "basic_set_union"); break;
+            case 1: CCALL(rc = basic_set_intersection(r.b, a.b, b.b)); agree(rc, r, [&]() -> RCP<const Basic> { return sa->set_intersection(sb); }, "basic_set_intersection"); break;
+            case 2: CCALL(rc = basic_set_complement(r.b, a.b, b.b)); agree(rc, r, [&]() -> RCP<const Basic> { return sa->set_complement(sb); }, "basic_set_complement"); break;
+            default: {
+                int s1 = 0, s2 = 0;
+                bool t1 = false, t2 = false, cs1 = false, cs2 = false;
+                try {
+                    cs1 = sa->is_subset(sb);
+                    cs2 = sa->is_superset(sb);
+                } catch (SymEngineException &) {
+                    t1 = true;
+                }
+                if (!t1) {
+                    CCALL(s1 = basic_set_is_subset(a.b, b.b));
+                    CCALL(s2 = basic_set_is_superset(a.b, b.b));
+                    verif_assert((s1 != 0) == cs1 && (s2 != 0) == cs2, "basic_set_is_subset / is_superset");
+                }
+                (void)t2;
+                break;
+            }
+        }
+    } else {
+        switch (op) {
+            case 4: CCALL(rc = basic_set_contains(r.b, a.b, pt.b)); agree(rc, r, [&]() -> RCP<const Basic> { return sa->contains(p); }, "basic_set_contains"); break;
+            case 5: CCALL(rc = basic_set_sup(r.b, a.b)); agree(rc, r, [&] { return sup(*sa); }, "basic_set_sup"); break;
+            case 6: CCALL(rc = basic_set_inf(r.b, a.b)); agree(rc, r, [&] { return inf(*sa); }, "basic_set_inf"); break;
+            case 7: CCALL(rc = basic_set_closure(r.b, a.b)); agree(rc, r, [&]() -> RCP<const Basic> { return closure(*sa); }, "basic_set_closure"); break;
+            default: CCALL(rc = basic_set_interior(r.b, a.b)); agree(rc, r, [&]() -> RCP<const Basic> { return interior(*sa); }, "basic_set_interior"); break;
+        }
+    }
+    VERIF_END();
+}
 // number theory and the lambda evaluator through C
 extern "C" void harness_c42_ntheory()
 {
